@@ -51,6 +51,8 @@ def peer_strategy(dll=None, roles=("orig", "resp"), modes=("rts", "rts", "bam"),
         else:
             p["pf"], p["ps"] = draw(pdu1_format(p["dp"])), None
         if intervals:
+            p["earlier"] = draw(st.sampled_from([None, None, None, {"max_cmdt": 255, "bam_dt": 0.01, "rts_dt": 0.001},
+                                                 {"max_cmdt": 1, "bam_dt": 0.19, "rts_dt": 0.05}]))
             if mode == "bam":
                 p["bam_dt"] = draw(st.sampled_from([None, None, 0.01, 0.02, 0.05, 0.075, 0.1, 0.15, 0.19]))
             else:
@@ -114,6 +116,11 @@ def run(p):
     w = W.World(latency=p["lat"], wake_eps=p["eps"], dispatch=p["disp"])
     obs = {}
     try:
+        if p.get("earlier"):
+            # another ECU object with a configuration of its own was created earlier in the same process (it is not on this bus):
+            # what one object is configured with is its own business
+            e = p["earlier"]
+            w.bus.detach(w.stack("E", dll=p["dll"], max_cmdt=e["max_cmdt"], bam_dt=e["bam_dt"], rts_cts_dt=e["rts_dt"]))
         s = w.stack("S", dll=p["dll"], max_cmdt=p["max_cmdt"], bam_dt=p["bam_dt"], rts_cts_dt=p["rts_dt"],
                     tx_time=p.get("tx_time", 0.0))
         s.add_ca("s", 0x100, SA_S)
